@@ -27,9 +27,18 @@ def run_one(name, tier):
         demo = os.path.join(d, 'demo.py')
         if os.path.exists(demo):
             res['demo_clean_exit'] = sh([PY, demo], cwd=wt, env=env)[0]
-        rc, out = sh(['git', '-C', wt, 'apply', os.path.join(d, 'patch.diff')])
+        patch = os.path.join(d, 'patch.diff')
+        rc, out = sh(['git', '-C', wt, 'apply', patch])
         if rc != 0:
-            res['error'] = 'patch does not apply: ' + out[-300:]
+            rc, out = sh(['git', '-C', wt, 'apply', '-3', patch])
+        if rc != 0:
+            sh(['git', '-C', wt, 'checkout', '--', '.'])
+            rc, out = sh('patch -p1 --fuzz=3 --no-backup-if-mismatch < %s' % patch, cwd=wt)
+        if rc != 0:
+            # seeds were written against the /repo HEAD of their time; later fix: commits can move their context
+            res['status'] = 'patch-no-longer-applies'
+            res['error'] = 'patch does not apply to the current /repo HEAD: ' + out[-300:]
+            json.dump(res, open(os.path.join(d, 'result.json'), 'w'), indent=1)
             return res
         if os.path.exists(demo):
             res['demo_patched_exit'] = sh([PY, demo], cwd=wt, env=env)[0]
@@ -40,6 +49,11 @@ def run_one(name, tier):
         res['check_lines'] = [l for l in out.splitlines() if l.startswith(('VIOLATION', 'KNOWN-FINDING', 'MACHINERY', prop + ' '))]
         res['wall_s'] = round(time.time() - t0, 1)
         res['caught'] = (rc == 1 and any(l.startswith('VIOLATION property=' + prop) for l in res['check_lines']))
+        if res.get('demo_patched_exit') == 0:
+            # the demonstration no longer fails with the patch: a later fix: commit neutralised this seed
+            res['status'] = 'neutralised-by-later-fix'
+        else:
+            res['status'] = 'caught' if res['caught'] else 'missed'
         res['with_failing_input'] = res['caught'] and any('no-failing-input-found' not in l for l in res['check_lines'] if l.startswith('VIOLATION'))
         # a seed may also be visible to a neighbouring property's check (recorded by us in also_run.json)
         also_file = os.path.join(d, 'also_run.json')
@@ -71,15 +85,18 @@ def main():
     rows = []
     for n in names:
         r = run_one(n, tier)
-        print(n, 'caught' if r.get('caught') else 'MISSED', r.get('check_lines', r.get('error')))
+        if r.get('caught_by') and not r.get('caught'):
+            r['status'] = 'caught-by-neighbour'
+            json.dump(r, open(os.path.join(seeded, n, 'result.json'), 'w'), indent=1)
+        print(n, r.get('status'), r.get('caught_by'), (r.get('check_lines') or [r.get('error')])[-1])
         rows.append(r)
     # summary over all result files
-    lines = ['# Seeded defects vs. checks', '', '| seed | property | demo clean/patched | check exit | caught by own check | failing input found | caught by |', '|---|---|---|---|---|---|---|']
+    lines = ['# Seeded defects vs. checks', '', '| seed | property | status | demo clean/patched | check exit | caught by own check | failing input found | caught by |', '|---|---|---|---|---|---|---|---|']
     for n in sorted(os.listdir(seeded)):
         f = os.path.join(seeded, n, 'result.json')
         if os.path.exists(f):
             r = json.load(open(f))
-            lines.append('| %s | %s | %s/%s | %s | %s | %s | %s |' % (n, r['property'], r.get('demo_clean_exit'), r.get('demo_patched_exit'), r.get('check_exit'), r.get('caught'), r.get('with_failing_input'), ','.join(r.get('caught_by', []))))
+            lines.append('| %s | %s | %s | %s/%s | %s | %s | %s | %s |' % (n, r['property'], r.get('status'), r.get('demo_clean_exit'), r.get('demo_patched_exit'), r.get('check_exit'), r.get('caught'), r.get('with_failing_input'), ','.join(r.get('caught_by', []))))
     open(os.path.join(seeded, 'RESULTS.md'), 'w').write('\n'.join(lines) + '\n')
 
 if __name__ == '__main__':
